@@ -18,8 +18,7 @@ PROP = "C10"
 COQ = dict(imports=["Model.Batch", "Spec.C10"], in_ty="input10", out_ty="output10",
            corr="corr_C10", decide="check_C10", model="model10")
 THEOREMS = ["C10_decider_sound", "C10_schema", "C10_rows", "C10_untouched", "C10_no_temp",
-            "C10_constraint_by_new_name_refuted", "C10_readd_last_column_refuted", "C10_rename_back_refuted",
-            "C10_added_column_order_refuted"]
+            "C10_constraint_by_new_name_refuted", "C10_readd_last_column_refuted", "C10_added_column_order_refuted"]
 TRUSTED = [
     "sqlalchemy.util.topological.sort (SQLAlchemy's, used for column ordering): transcribed as sa_tsort for the correspondence; "
     "the theorems that involve it take it as a Section variable",
@@ -60,7 +59,6 @@ TMPP = "_alembic_tmp_"
 FINDINGS = {
     "byname": "C10-constraint-on-unknown-or-renamed-column-silently-dropped",
     "readd": "C10-add-existing-last-column-loses-its-data",
-    "renameback": "C10-rename-back-to-original-name-ignored",
 }
 
 
@@ -598,11 +596,8 @@ def classify(scn, out):
     readd = False
     byname = False
     live = ["id"] + [c[0] for c in scn["cols"]]
-    renameback = False
     for o in scn["ops"]:
         if o[0] == "alter" and "name" in o[2] and o[1] in live:
-            if o[2]["name"] == o[1] and cur.get(o[1], o[1]) != o[1]:
-                renameback = True          # alter_column(k, new_column_name=k) after k was renamed: ignored by the code
             cur[o[1]] = o[2]["name"]
         elif o[0] == "add":
             if o[1] in live:
@@ -616,8 +611,6 @@ def classify(scn, out):
                 byname = True
     if readd:
         return FINDINGS["readd"]
-    if renameback:
-        return FINDINGS["renameback"]
     if byname:
         return FINDINGS["byname"]
     return None
